@@ -74,7 +74,7 @@ func childMain() {
 		initWork()
 		defer os.RemoveAll(workRoot)
 		dir := EnterCaseDir()
-		cases := firstCases(1)
+		cases := firstCasesOpt(1, os.Getenv("VERIF_FRESH_STALE"))
 		LeaveCaseDir(dir)
 		if len(cases) > 0 {
 			fmt.Println(cases[0])
